@@ -11,17 +11,31 @@ RULE = ('structured extension lists (ids 3..127, frames < nb_frames <= 48, paylo
         'reader; arbitrary, token-biased and mutated bytes as padding; iterator op sequences (next/reset/set_frame_max/find); '
         'a case is distinct by its (op, outcome kind) class')
 NOT_COVERED = [
-    'generate→parse round trip is proved only for lists on which the generator does not use the repeat mechanism '
-    '(generate_parse_partial); with repeats it is only searched (S4) and tied differentially (S3)',
-    'repacketizer carriage of extensions (merge/split) is searched on the implementation and tied through the C07 model, not proved',
+    'generate->parse round trip is proved only for lists on which the generator does not use the repeat mechanism '
+    '(generate_parse_partial: nb_frames = 1, empty last frame, differing first extensions ...); with repeats it is only '
+    'searched (S4) and tied differentially (S3)',
+    'parse->generate->parse fixed point: searched (S4) only',
+    'repacketizer carriage of extensions (merge/split): searched on the implementation (S4) only, not modelled here',
     'opus_int32 overflow of lengths: lengths are unbounded integers in the model (buffers < 2^31 assumed)',
+    'iterator with nb_frames = 0 and a caller-raised frame_max > 0 (API misuse; the code then reports frame-0 extensions)',
 ]
 ASSUMPTIONS = ['len argument equals the length of the supplied buffer (exact-size heap blocks under ASan)',
                'extension payload pointers supply at least len readable bytes']
 REQUIRED_THEOREMS = ['OpusProps.C16.iter_safe', 'OpusProps.C16.iter_terminates', 'OpusProps.C16.count_parse_agree',
+                     'OpusProps.C16.parse_ext_stable_sort',
                      'OpusProps.C16.generate_dry_eq_written', 'OpusProps.C16.generate_exact_and_smaller',
-                     'OpusProps.C16.generate_within', 'OpusProps.C16.generate_bad_arg']
-UNPROVED = []
+                     'OpusProps.C16.generate_within', 'OpusProps.C16.generate_bad_arg',
+                     'OpusProps.C16.generate_parse_partial', 'OpusProps.C16.parse_canonical']
+UNPROVED = ['generate_parse (P1, full): parse_ext(generate(exts)) = stable sort by frame of exts for ALL valid lists, i.e. '
+            'including the lists on which the generator uses the "repeat these extensions" mechanism; proved only under '
+            'NoRepeat (generate_parse_partial). Missing: the invariant tying frame_repeat_idx/last_long_idx of the generator to '
+            'repeat_data/last_long/trailing_short_len of the iterator.',
+            'fixed_point (P1): parse(generate(parse x)) = parse x for arbitrary bytes x (needs the full generate_parse)',
+            'generate: short-ID extension with len > 1 or any extension with len < 0 => OPUS_BAD_ARG (proved only for bad id/frame/'
+            'nb_frames: the length check sits inside write_extension_payload and can be preceded by BUFFER_TOO_SMALL)',
+            'repack_carries_ext (P1, with C07): extension carriage through opus_repacketizer_out_range_impl is searched on the '
+            'implementation (S4) only',
+            'int_ranges: lengths/positions are unbounded Int/Nat in the model (opus_int32 overflow for buffers >= 2^31 not excluded)']
 
 
 def _cases(ctx, quick, thorough):
